@@ -8,6 +8,7 @@ import (
 
 	secp256k1 "gitlab.com/yawning/secp256k1-voi"
 	"gitlab.com/yawning/secp256k1-voi/internal/field"
+	"gitlab.com/yawning/secp256k1-voi/secec"
 	"gitlab.com/yawning/secp256k1-voi/verifharness/ref"
 )
 
@@ -59,4 +60,22 @@ func Catch(f func()) (r any) {
 	defer func() { r = recover() }()
 	f()
 	return nil
+}
+
+// PubKey builds a secec.PublicKey from a finite reference point.
+func PubKey(p ref.Pt) *secec.PublicKey {
+	k, err := secec.NewPublicKey(p.Uncompressed())
+	if err != nil {
+		panic(fmt.Sprintf("lib.PubKey(%v): %v", p, err))
+	}
+	return k
+}
+
+// PrivKey builds a secec.PrivateKey from d in [1,n).
+func PrivKey(d *big.Int) *secec.PrivateKey {
+	k, err := secec.NewPrivateKey(ref.B32(d))
+	if err != nil {
+		panic(fmt.Sprintf("lib.PrivKey(%x): %v", d, err))
+	}
+	return k
 }
